@@ -114,8 +114,14 @@ Section MapRead.
     end.
   Definition map_verify (m : mstate) (hs : list H) (ts : list N) (pf : list H) : outcome (list nat) :=
     let tr := TreeRows (ms_n m) in
-    let ts' := if tr =? ms_total m then ts else translatePositions ts (ms_total m) tr in
-    Verify HO true (getStump m) hs ts' pf.
+    let total := ms_total m in
+    if tr =? total then Verify HO true (getStump m) hs ts pf
+    else if forallb (fun t => if t <=? maxPosition tr then true
+                              else let row := DetectRow t total in
+                                   negb (tr <? row) &&
+                                   (sub64 t (startPositionAtRow row total) <? shl 1 (sub8 tr row))) ts
+         then Verify HO true (getStump m) hs (translatePositions ts total tr) pf
+         else Err.
   Definition VerifyPartialProof (m : mstate) (origTargets : list N) (delHashes proofHashes : list H)
     : outcome (list nat) :=
     let tr := TreeRows (ms_n m) in
